@@ -89,7 +89,7 @@ def generate(seed, tier):
         sc['meta']['nested_shape'] = shape
         sc['meta']['relation'] = 'nested'
         return sc
-    rel = r.choice(['equal', 'equal', 'a_wider', 'b_wider', 'overlap', 'disjoint', 'mode', 'proto_any', 'port'])
+    rel = r.choice(['equal', 'equal', 'a_wider', 'b_wider', 'overlap', 'disjoint', 'mode', 'proto_any', 'port', 'mixed', 'mixed'])
     for pb in cb['protect']:
         if rel == 'mode':
             pb['mode'] = 'transport' if pb.get('mode') == 'tunnel' else 'tunnel'
@@ -109,7 +109,15 @@ def generate(seed, tier):
                 continue
             net = ipaddress.ip_network(pb[key])
             maxp = 32 if net.version == 4 else 128
-            if rel == 'a_wider' and net.prefixlen < maxp:          # B's entry is narrower than A's
+            if rel == 'mixed':
+                # no mirror images: B's own side is wider than what A thinks of it, B's view of A's side is narrower than A's own (or the
+                # reverse): a request is then wider than the policy on one side and inside it on the other
+                widen = (key == 'my_subnet') == (seed % 2 == 0)
+                if widen and net.prefixlen > 8:
+                    pb[key] = str(net.supernet(new_prefix=max(1, net.prefixlen - r.choice([1, 4, 8]))))
+                elif not widen and net.prefixlen < maxp:
+                    pb[key] = str(list(net.subnets(new_prefix=min(maxp, net.prefixlen + r.choice([1, 4, 8]))))[r.choice([0, -1])])
+            elif rel == 'a_wider' and net.prefixlen < maxp:          # B's entry is narrower than A's
                 pb[key] = str(list(net.subnets(new_prefix=min(maxp, net.prefixlen + r.choice([1, 4, 8]))))[r.choice([0, -1])])
             elif rel == 'b_wider' and net.prefixlen > 8:
                 pb[key] = str(net.supernet(new_prefix=max(1, net.prefixlen - r.choice([1, 4, 8]))))
@@ -190,7 +198,12 @@ def judge(w, tap, scenario, reach):
                 nets = sel_nets(sel)
                 reach['kernel_selectors_compared'] = reach.get('kernel_selectors_compared', 0) + 1
                 got = (str(nets[0]), str(nets[1]), sel['sport'], sel['sport_mask'], sel['dport'], sel['dport_mask'], sel['proto']) if nets else None
-                want = (str(src[0]), str(dst[0]), src[1], src[2], dst[1], dst[2], src[3])
+                # a packet has one protocol and must be admitted by TSi and by TSr: "any" on one side and UDP on the other denotes UDP (the
+                # responder may legally pair the general TSi with the specific TSr of a request; survey with relation 'mixed', seed 1000165)
+                if src[3] and dst[3] and src[3] != dst[3]:
+                    reach['contradictory_ts_protocols'] = reach.get('contradictory_ts_protocols', 0) + 1
+                    continue
+                want = (str(src[0]), str(dst[0]), src[1], src[2], dst[1], dst[2], src[3] or dst[3])
                 if got != want:
                     return V('kernel_selector_not_the_negotiated_one', {'role': who.split()[1]}, f'{who}: kernel selector {sel_str(sel)} but negotiated {want}')
     # ---- refusals: when no entry of the responder could admit the request in the requested mode, the answer is TS_UNACCEPTABLE
